@@ -140,6 +140,18 @@ fn switches<C: ScriptContext>(node: &Node, ctx: Ctx, text: &str, rep: &mut Repor
             expect(&ms, &p, want, $name, text)?;
         }};
     }
+    // the public analysis predicates answer the same questions as the switches
+    for (name, lib, mine) in [
+        ("requires_sig", ms.requires_sig(), t & spec::S != 0),
+        ("is_non_malleable", ms.is_non_malleable(), t & spec::M != 0),
+        ("has_repeated_keys", ms.has_repeated_keys(), analysis::has_duplicate_keys(node)),
+        ("contains_raw_pkh", ms.contains_raw_pkh(), analysis::has(node, &|x| matches!(x, Node::RawPkH(_)))),
+        ("has_mixed_timelocks", ms.has_mixed_timelocks(), analysis::has_mixed_timelocks(node)),
+    ] {
+        if lib != mine {
+            return fail(&format!("predicate/{}", name), format!("Miniscript::{}() = {} for `{}`, the mirror analysis says {}", name, lib, text, mine));
+        }
+    }
     one!(allow_duplicate_keys, "allow_duplicate_keys", if analysis::has_duplicate_keys(node) { Some("DuplicateKeys") } else { None });
     one!(allow_dup_if, "allow_dup_if", if analysis::has(node, &|x| matches!(x, Node::DupIf(_))) { Some("IllegalDupIf") } else { None });
     one!(allow_or_i, "allow_or_i", if analysis::has(node, &|x| matches!(x, Node::OrI(..))) { Some("IllegalOrI") } else { None });
@@ -368,7 +380,7 @@ fn rand_params(src: &mut Src) -> ValidationParams {
 impl Check for C12 {
     fn id(&self) -> &'static str { "C12" }
     fn rule(&self) -> String {
-        "lane `accept`: a typed random miniscript with at most one injected context violation (non-B top level, key kind illegal in the context, wrong (sorted)multisig flavour, or_i / d: in pre-segwit contexts, a lock value of 0 or >= 2^31) offered as text to Miniscript::{from_str, from_str_insane, from_str_with_validation_params(Ctx::CONSENSUS)}, node by node to Miniscript::from_ast, as script to decode / decode_consensus, wrapped into wsh / sh(wsh) / sh / tr descriptors for Descriptor::from_str, and through Descriptor::new_{wsh,sh,sh_wsh,tr} constructors: whatever is accepted must satisfy the mirror's context rules (specification typing, top-level B, key kinds, multisig flavour, conditional fragments, script size, depth) and, for the default parsers, the default sanity predicates; what Descriptor::from_str accepts the miniscript parser with the context's consensus parameters must accept too. lane `switch`: miniscripts parsed with MAX parameters; for each boolean switch, validate() with only that switch restricted must fail with that switch's error iff the mirror predicate finds the defect (key multiset, path-set time-lock analysis, specification type s/m/B, fragment census, key kinds, exhaustive witness search for `unsatisfiable`), and each numeric limit must accept at the script's own figure and at +1 and reject at -1. lane `lattice`: random parameter sets p,q,r: intersect idempotent / commutative / associative / lower bound, entails reflexive / transitive, p.entails(q) => every script p accepts q accepts; Ctx::SANE entails Ctx::CONSENSUS. Non-trivial = accepted inputs with >= 2 nodes, rejected one-violation inputs, (script, switch) pairs where the defect is present.".into()
+        "lane `accept`: a typed random miniscript with at most one injected context violation (non-B top level, key kind illegal in the context, wrong (sorted)multisig flavour, or_i / d: in pre-segwit contexts, a lock value of 0 or >= 2^31) offered as text to Miniscript::{from_str, from_str_insane, from_str_with_validation_params(Ctx::CONSENSUS)}, node by node to Miniscript::from_ast, as script to decode / decode_consensus, wrapped into wsh / sh(wsh) / sh / tr descriptors for Descriptor::from_str, and through Descriptor::new_{wsh,sh,sh_wsh,tr} and new_{wsh,sh_wsh,sh}_sortedmulti constructors (1-20 keys of any kind): whatever is accepted must satisfy the mirror's context rules (specification typing, top-level B, key kinds, multisig flavour, conditional fragments, script size, depth) and, for the default parsers, the default sanity predicates; what Descriptor::from_str accepts the miniscript parser with the context's consensus parameters must accept too. lane `switch`: miniscripts parsed with MAX parameters; the public predicates requires_sig / is_non_malleable / has_repeated_keys / contains_raw_pkh / has_mixed_timelocks must equal the mirror's; for each boolean switch, validate() with only that switch restricted must fail with that switch's error iff the mirror predicate finds the defect (key multiset, path-set time-lock analysis, specification type s/m/B, fragment census, key kinds, exhaustive witness search for `unsatisfiable`), and each numeric limit must accept at the script's own figure and at +1 and reject at -1. lane `lattice`: random parameter sets p,q,r: intersect idempotent / commutative / associative / lower bound, entails reflexive / transitive, p.entails(q) => every script p accepts q accepts; Ctx::SANE entails Ctx::CONSENSUS. Non-trivial = accepted inputs with >= 2 nodes, rejected one-violation inputs, (script, switch) pairs where the defect is present.".into()
     }
     fn lanes(&self, tier: Tier) -> Vec<(&'static str, usize, usize)> {
         match tier {
@@ -560,6 +572,35 @@ impl Check for C12 {
                             }
                         }
                     }};
+                }
+                // the sortedmulti / pk / pkh / wpkh convenience constructors with generated keys
+                {
+                    let n_keys = if src.chance(1, 6) { src.range(14, 20) } else { src.range(1, 4) };
+                    let k = src.range(1, n_keys);
+                    let mut ks: Vec<String> = Vec::new();
+                    for i in 0..n_keys {
+                        ks.push(match src.below(8) {
+                            0 => keys::key_uncompressed(i % 12),
+                            1 => keys::key_xonly(i % 12),
+                            _ => keys::key_compressed(i % 12),
+                        });
+                    }
+                    let dks: Result<Vec<DK>, _> = ks.iter().map(|x| DK::from_str(x)).collect();
+                    if let Ok(dks) = dks {
+                        let which = src.below(3);
+                        let (name, mctx, r): (&str, Ctx, Result<Descriptor<DK>, miniscript::Error>) = match which {
+                            0 => ("Descriptor::new_wsh_sortedmulti", Ctx::Segwitv0, miniscript::Threshold::new(k, dks).map_err(|e| miniscript::Error::Unexpected(e.to_string())).and_then(Descriptor::new_wsh_sortedmulti)),
+                            1 => ("Descriptor::new_sh_wsh_sortedmulti", Ctx::Segwitv0, miniscript::Threshold::new(k, dks).map_err(|e| miniscript::Error::Unexpected(e.to_string())).and_then(Descriptor::new_sh_wsh_sortedmulti)),
+                            _ => ("Descriptor::new_sh_sortedmulti", Ctx::Legacy, miniscript::Threshold::new(k, dks).map_err(|e| miniscript::Error::Unexpected(e.to_string())).and_then(Descriptor::new_sh_sortedmulti)),
+                        };
+                        if r.is_ok() {
+                            rep.class(format!("accepted:{}", name));
+                            let nd = Node::SortedMulti(k, ks.clone());
+                            if let Some(v) = analysis::context_violation(&nd, mctx, true) {
+                                return fail(&format!("{}-accepts/{}", name, v.split(' ').next().unwrap_or("?")), format!("{}({}, {:?}) is accepted although it violates: {}", name, k, ks, v));
+                            }
+                        }
+                    }
                 }
                 match wk {
                     0 => ctor!(Segwitv0, |m| Descriptor::new_wsh(m), "Descriptor::new_wsh"),
